@@ -175,19 +175,100 @@ Proof.
   intros Ha P G1 G2. split; [exact (gate_closed _ ov arg a c Ha G1 P) | exact (gate_closed _ ov arg a c Ha G2 P)].
 Qed.
 
-(* non-vacuity: "~=2.2.post3" = ">=2.2.post3" and "==0!2.*" on 2.3 (T,T,T) and on 3.0 (T,F,F); "!=1.0"/"==1.0" both reject 2.0a1 by default *)
+(* ---- every clause under EVERY setting, for candidates that pass the pre-release gate ----
+   A candidate passes the gate of every specifier when it is no pre-release, or when pre-releases are enabled independently of the
+   specifier (call argument True, or no argument and object setting True). Then contains() is the prereleases=True answer, so each
+   law above transfers.  (For a pre-release candidate under a closed or operator-dependent gate the laws fail: ne_complement_fails_when_gated,
+   and e.g. >=1.0 is not upward closed from 1.0 to 1.1a1 by default.) *)
+Definition enabled (ov arg : option bool) : bool :=
+  match arg with Some b => b | None => match ov with Some b => b | None => false end end.
+Definition passes (ov arg : option bool) (c : version) : Prop := is_prerelease c = false \/ enabled ov arg = true.
+Lemma enabled_gate sp ov arg : enabled ov arg = true -> gate_setting sp ov arg = true.
+Proof. unfold enabled, gate_setting, effective_pre. destruct arg as [b|]; auto. destruct ov as [b|]; auto. discriminate. Qed.
+Theorem contains_gate_passed sp ov arg a c : Version a = Some c -> passes ov arg c -> contains sp ov arg a = hasT sp a.
+Proof.
+  intros Ha P. unfold hasT, contains. rewrite Ha. rewrite andb_false_r.
+  destruct P as [P|P]; [now rewrite P | fold (gate_setting sp ov arg); now rewrite (enabled_gate sp ov arg P), andb_false_r].
+Qed.
+
+Section AnySetting.
+Variables (t : str) (V : version) (ov arg : option bool).
+Hypothesis PV : Version t = Some V.
+Hypothesis NL : Py.local V = None.
+Notation C o x := (contains (spec_of o t) ov arg x).
+
+Theorem ge_upward_any_setting a b c c' : Version a = Some c -> Version b = Some c' -> passes ov arg c -> passes ov arg c' ->
+  C OGe a = Ans true -> vcmp (drop_local c) (drop_local c') <> Gt -> C OGe b = Ans true.
+Proof.
+  intros Ha Hb Pa Pb. rewrite (contains_gate_passed _ ov arg a c Ha Pa), (contains_gate_passed _ ov arg b c' Hb Pb).
+  exact (ge_upward_contains t V PV NL a b c c' Ha Hb).
+Qed.
+Theorem le_downward_any_setting a b c c' : Version a = Some c -> Version b = Some c' -> passes ov arg c -> passes ov arg c' ->
+  C OLe a = Ans true -> vcmp (drop_local c') (drop_local c) <> Gt -> C OLe b = Ans true.
+Proof.
+  intros Ha Hb Pa Pb. rewrite (contains_gate_passed _ ov arg a c Ha Pa), (contains_gate_passed _ ov arg b c' Hb Pb).
+  exact (le_downward_contains t V PV NL a b c c' Ha Hb).
+Qed.
+Theorem cover_any_setting a c : Version a = Some c -> passes ov arg c ->
+  exists b1 b2, C OGe a = Ans b1 /\ C OLe a = Ans b2 /\ b1 || b2 = true.
+Proof. intros Ha P. rewrite !(contains_gate_passed _ ov arg a c Ha P). exact (ge_le_cover_contains t V PV NL a c Ha). Qed.
+Theorem lt_inside_le_any_setting a c : Version a = Some c -> passes ov arg c -> C OLt a = Ans true -> C OLe a = Ans true.
+Proof. intros Ha P. rewrite !(contains_gate_passed _ ov arg a c Ha P). exact (lt_inside_le_contains t V PV NL a c Ha). Qed.
+Theorem gt_inside_ge_any_setting a c : Version a = Some c -> passes ov arg c -> C OGt a = Ans true -> C OGe a = Ans true.
+Proof. intros Ha P. rewrite !(contains_gate_passed _ ov arg a c Ha P). exact (gt_inside_ge_contains t V PV NL a c Ha). Qed.
+(* never matching V or a local version of V needs no gate hypothesis: a closed gate answers False as well *)
+Theorem strict_never_match_any_setting a c : Version a = Some c -> vcmp (drop_local c) V = Eq -> C OLt a = Ans false /\ C OGt a = Ans false.
+Proof.
+  intros Ha E. destruct (strict_never_match_contains t V PV NL a c Ha E) as [L G]. unfold hasT, contains in L, G |- *. rewrite Ha in *.
+  cbn [negb] in L, G. rewrite andb_false_r in L, G. split.
+  - destruct (is_prerelease c && negb (match arg with Some b => b | None => effective_pre ov (spec_of OLt t) end)); auto.
+  - destruct (is_prerelease c && negb (match arg with Some b => b | None => effective_pre ov (spec_of OGt t) end)); auto.
+Qed.
+Theorem compat_intersection_any_setting a c : (2 <= length (Py.release V))%nat -> Version a = Some c -> passes ov arg c ->
+  exists b1 b2, C OGe a = Ans b1 /\ contains (spec_of OEq (prefix_text V)) ov arg a = Ans b2 /\ C OCompat a = Ans (b1 && b2).
+Proof. intros Two Ha P. rewrite !(contains_gate_passed _ ov arg a c Ha P). exact (compat_is_intersection_contains t V a c PV NL Two Ha). Qed.
+End AnySetting.
+
+(* non-vacuity: "~=2.2.post3" = ">=2.2.post3" and "==0!2.*" on 2.3 (T,T,T) and on 3.0 (T,F,F); "!=1.0"/"==1.0" both reject 2.0a1 by default;
+   closure: >=2.2.post3 holds 2.3 hence 3.0, <=2.2.post3 holds 2.2 hence 2.1, and 2.2.post3 itself is covered, inside neither < nor >;
+   equal candidates under object setting False / no argument: 1.0a1 and 1.0.0.alpha1 compare equal and get the same (False) answer from >=0.9,
+   and the same (True) answer once the object setting is True; local label: 1.0+x.1 IS add_local (1.0) [x;1] and is answered like 1.0;
+   any-setting: ">=1.0" / "<=1.0" cover 1.1 under every (ov, arg), and do NOT cover the pre-release 1.1a1 by default *)
 Definition lift_check : bool :=
   let t := [50;46;50;46;112;111;115;116;51] in
-  match Version t with
-  | Some V =>
+  let ge09 := spec_of OGe [48;46;57] in
+  let a1 := [49;46;48;97;49] in let a2 := [49;46;48;46;48;46;97;108;112;104;97;49] in
+  let one := [49;46;48] in let onex := [49;46;48;43;120;46;49] in
+  let settings := [None; Some true; Some false] in
+  match Version t, Version a1, Version a2, Version one, Version onex with
+  | Some V, Some c1, Some c2, Some c, Some cx =>
       match hasT (spec_of OGe t) [50;46;51], hasT (spec_of OEq (prefix_text V)) [50;46;51], hasT (spec_of OCompat t) [50;46;51],
             hasT (spec_of OGe t) [51;46;48], hasT (spec_of OEq (prefix_text V)) [51;46;48], hasT (spec_of OCompat t) [51;46;48],
             contains (spec_of OEq [49;46;48]) None None [50;46;48;97;49], contains (spec_of ONe [49;46;48]) None None [50;46;48;97;49] with
       | Ans true, Ans true, Ans true, Ans true, Ans false, Ans false, Ans false, Ans false => true
-      | _, _, _, _, _, _, _, _ => false end
-  | None => false end.
+      | _, _, _, _, _, _, _, _ => false end &&
+      match hasT (spec_of OLe t) [50;46;50], hasT (spec_of OLe t) [50;46;49], hasT (spec_of OLe t) t, hasT (spec_of OGe t) t,
+            hasT (spec_of OLt t) t, hasT (spec_of OGt t) t, hasT (spec_of OLt t) [50;46;50], hasT (spec_of OGt t) [50;46;51] with
+      | Ans true, Ans true, Ans true, Ans true, Ans false, Ans false, Ans true, Ans true => true
+      | _, _, _, _, _, _, _, _ => false end &&
+      match pep440_cmp c1 c2, contains ge09 (Some false) None a1, contains ge09 (Some false) None a2,
+            contains ge09 (Some true) None a1, contains ge09 (Some true) None a2 with
+      | Eq, Ans false, Ans false, Ans true, Ans true => true | _, _, _, _, _ => false end &&
+      match Py.local c, Py.local cx with
+      | None, Some l => VMeaning.str_eqb (vstr cx) (vstr (add_local c l)) &&
+                        forallb (fun ov => forallb (fun arg => match contains ge09 ov arg one, contains ge09 ov arg onex with
+                                                               | Ans x, Ans y => Bool.eqb x y | _, _ => false end) settings) settings
+      | _, _ => false end &&
+      forallb (fun ov => forallb (fun arg => match contains (spec_of OGe one) ov arg [49;46;49], contains (spec_of OLe one) ov arg [49;46;49] with
+                                             | Ans x, Ans y => x || y | _, _ => false end) settings) settings &&
+      match contains (spec_of OGe one) None None [49;46;49;97;49], contains (spec_of OLe one) None None [49;46;49;97;49] with
+      | Ans false, Ans false => true | _, _ => false end
+  | _, _, _, _, _ => false end.
 Example lift_nonvacuous : lift_check = true.
 Proof. vm_compute. reflexivity. Qed.
 Print Assumptions compat_is_intersection_contains.
 Print Assumptions ge_upward_contains.
 Print Assumptions equal_candidates_any_setting.
+Print Assumptions cover_any_setting.
+Print Assumptions strict_never_match_any_setting.
+Print Assumptions compat_intersection_any_setting.
